@@ -2,7 +2,7 @@
 
 import ast
 
-from ..absint import NONE, NOTNONE, TOP, DefaultDomain, Interp, Result, State, exc, val
+from ..absint import NONE, NOTNONE, TOP, TRUE, DefaultDomain, Interp, Result, State, exc, val
 from ..alias import Aliases
 from ..astutil import FUNC_TYPES, attr_chain, dotted, norm, walk_shallow
 from ..loader import AnalysisError
@@ -47,28 +47,56 @@ class TagDomain(DefaultDomain):
         self.cls = cls
 
     def truth(self, v):
-        if isinstance(v, tuple) and v and v[0] == "ctx":
+        if isinstance(v, tuple) and v and v[0] in ("ctx", "ctx-deep"):
             return "T"
         return super().truth(v)
 
     def is_none(self, v):
-        if isinstance(v, tuple) and v and v[0] == "ctx":
+        if isinstance(v, tuple) and v and v[0] in ("ctx", "ctx-deep"):
             return "F"
         return super().is_none(v)
 
+    # The context is followed by value: through self._tags, through a local holding it, through `.parent`.
+    def _base(self, chain, st, fr):
+        """-> (value of the longest context-valued prefix of ``chain``, remaining names) or None."""
+        if len(chain) >= 2 and chain[0] == "self" and chain[1] == "_tags":
+            return st.get("self._tags", "Unset"), chain[2:]
+        if chain and chain[0] != "self":
+            key = fr.local(chain[0])
+            if st.has(key):
+                v = st.get(key)
+                if (isinstance(v, tuple) and v and v[0] in ("ctx", "ctx-deep")) or v in (NONE, "Unset"):
+                    return v, chain[1:]
+        return None
+
+    @staticmethod
+    def _parent_of(cur):
+        if cur[0] == "ctx-deep":
+            return ("ctx-deep",)
+        if cur[1] == 0:
+            return NONE  # the run-level context has no parent
+        if cur[1] == 1:
+            return ctx_val(0, cur[2])
+        return ("ctx-deep",)
+
+    def load_attr_multi(self, chain, st, fr):
+        b = self._base(chain, st, fr)
+        if b is None:
+            return None
+        cur, rest = b
+        if not rest:
+            return [val(cur, st)]
+        for i, name in enumerate(rest):
+            if not (isinstance(cur, tuple) and cur and cur[0] in ("ctx", "ctx-deep")):
+                what = ".".join(chain[:len(chain) - len(rest) + i])
+                return [exc(("AttributeError", f"{what} is {cur} in {fr.name}"), st.set("ev.deref", f"{fr.name}: {what}.{name} with {what} = {cur}"))]
+            if name == "parent":
+                cur = self._parent_of(cur)
+            else:
+                return [val(TOP, st)]
+        return [val(cur, st)]
+
     def load_attr(self, chain, st, fr):
-        if len(chain) == 3 and chain[0] == "self" and chain[1] == "_tags" and chain[2] == "parent":
-            cur = st.get("self._tags", "Unset")
-            if isinstance(cur, tuple) and cur[0] == "ctx":
-                if cur[1] == 0:
-                    return NONE  # the run-level context has no parent
-                if cur[1] == 1:
-                    return ctx_val(0, cur[2])
-                return ("ctx-deep",)
-            return ("deref", cur)
-        if len(chain) == 2 and chain[0] == "self" and chain[1] == "_tags":
-            if not st.has("self._tags"):
-                return "Unset"
         return None
 
     def call(self, interp, call, st, fr):
@@ -92,16 +120,23 @@ class TagDomain(DefaultDomain):
                     else:
                         out.append(val(ctx_val(0, fresh), r.state.set("ev.bad_parent", repr(p))))
             return out
-        if ch and len(ch) == 3 and ch[:2] == ["self", "_tags"]:
-            cur = st.get("self._tags", "Unset")
+        b = self._base(ch[:-1], st, fr) if ch and len(ch) >= 2 else None
+        if b is not None and (b[1] or ch[0] != "self" or len(ch) == 3):
+            # a method of the context reached through self._tags / a local / .parent
             out = []
-            for r in interp.eval_list(list(call.args), st, fr):
-                if r.kind == "exc":
-                    out.append(r)
-                elif isinstance(cur, tuple) and cur[0] == "ctx":
-                    out.append(val(TOP, r.state))
-                else:
-                    out.append(exc(("AttributeError", f"self._tags is {cur} in {fr.name}"), r.state.set("ev.deref", f"{fr.name}: self._tags.{ch[2]}() with self._tags = {cur}")))
+            for r0 in self.load_attr_multi(ch[:-1], st, fr):
+                if r0.kind == "exc":
+                    out.append(r0)
+                    continue
+                cur = r0.value
+                for r in interp.eval_list(list(call.args), r0.state, fr):
+                    if r.kind == "exc":
+                        out.append(r)
+                    elif isinstance(cur, tuple) and cur and cur[0] in ("ctx", "ctx-deep"):
+                        out.append(val(TOP, r.state))
+                    else:
+                        what = ".".join(ch[:-1])
+                        out.append(exc(("AttributeError", f"{what} is {cur} in {fr.name}"), r.state.set("ev.deref", f"{fr.name}: {what}.{ch[-1]}() with {what} = {cur}")))
             return out
         if ch and ch[0] in ("self", "super()") and len(ch) == 2 and fr.receiver is not None:
             if ch[0] == "self":
@@ -135,8 +170,6 @@ class TagDomain(DefaultDomain):
 
     def store_attr(self, key, value, st, fr):
         if key == "self._tags":
-            if isinstance(value, tuple) and value and value[0] == "deref":
-                return st.set("ev.deref", f"{fr.name}: self._tags.parent with self._tags = {value[1]}").set(key, TOP)
             return st.set(key, value)
         if key in ("self._started",):
             return st.set(key, value)
@@ -293,83 +326,139 @@ def run(ctx):
                   not diffs, f"{name} and {ref_name} disagree: {diffs[:3]}", construct=f"{name}::agrees-with-TestResult")
 
     # ------------------------------------------------------------------ TagContext copies
+    # Decided on abstract runs over symbolic sets: which set object a context ends up with / hands out, and what it
+    # contains as a set expression -- whatever sequence of set operations the code uses.
+    from .. import effects
     tcx = classes.get(TAGS_MOD, "TagContext")
-    init = tcx.own_method("__init__")
-    fresh = [n for n in walk_shallow(init, include_self=False) if isinstance(n, ast.Assign) and dotted(n.targets[0]) == "self._tags"]
-    a = Aliases(init)
-    ok = len(fresh) == 1 and a.of(fresh[0].value) <= {("fresh",)}
-    ctx.check("R-COPY-NOT-ALIAS", "TagContext.__init__ starts from a fresh set", init, ok, "a new context shares its tag set with another object", construct=f"{TAGS_MOD}:TagContext.__init__::fresh")
-    copies = [c for c in walk_shallow(init, include_self=False) if isinstance(c, ast.Call) and dotted(c.func) == "self._tags.update" and c.args and "parent.get_current_tags()" in norm(c.args[0])]
-    ctx.check("R-COPY-NOT-ALIAS", "TagContext.__init__ copies the parent's current tags", init, len(copies) == 1,
-              "the parent's tags are not copied into the child (tags current before the test would be invisible inside it)", construct=f"{TAGS_MOD}:TagContext.__init__::copy-parent")
-    stores_parent = any(isinstance(n, ast.Assign) and dotted(n.targets[0]) == "self.parent" and dotted(n.value) == "parent" for n in walk_shallow(init, include_self=False))
-    ctx.check("R-COPY-NOT-ALIAS", "TagContext remembers its parent", init, stores_parent, "self.parent is not the parent context", construct=f"{TAGS_MOD}:TagContext.__init__::parent")
-    g = tcx.own_method("get_current_tags")
-    rets = [r for r in walk_shallow(g, include_self=False) if isinstance(r, ast.Return)]
-    ag = Aliases(g)
-    ok = bool(rets) and all(ag.of(r.value) <= {("fresh",)} for r in rets)
-    ctx.check("R-COPY-NOT-ALIAS", "get_current_tags returns a fresh set", g, ok, "get_current_tags hands out the context's own set: callers could change the context's tags", construct=f"{TAGS_MOD}:TagContext.get_current_tags::fresh")
-    ch_ = tcx.own_method("change_tags")
-    ac = Aliases(ch_)
-    muts = list(ac.mutations())
-    bad = [m for m in muts if ac.caller_owned(ac.of(m[1]))]
-    own = [m for m in muts if ac.of(m[1]) == {("self", "_tags")}]
-    ops = [(norm(m[0].func).split(".")[-1], dotted(m[0].args[0])) for m in own if isinstance(m[0], ast.Call) and m[0].args]
-    p1, p2 = [x.arg for x in ch_.args.args[1:3]]
-    ctx.check("R-COPY-NOT-ALIAS", "change_tags adds new tags then removes gone tags on its own set only", ch_, not bad and ops == [("update", p1), ("difference_update", p2)],
-              f"change_tags operations {ops}; mutates caller objects: {bool(bad)}", construct=f"{TAGS_MOD}:TagContext.change_tags::ops")
+    PARENT, OWN, NEWT, GONET = ("wobj", "p"), ("sym", "own"), ("arg", "new"), ("arg", "gone")
+    PTAGS = ("ret", "p", "get_current_tags")
+
+    def canon(e):
+        """Set expression without the copies (a copy has the same members)."""
+        if isinstance(e, tuple) and e[:1] == ("set",) and len(e) == 2:
+            return canon(e[1])
+        if isinstance(e, tuple) and e[:1] == ("copy",) and len(e) == 2:
+            return canon(e[1])
+        if isinstance(e, tuple) and e[:1] in (("union",), ("minus",), ("meet",)):
+            l_, r_ = canon(e[1]), canon(e[2])
+            if e[0] == "union" and l_ == ("empty",):
+                return r_
+            if e[0] == "union" and r_ == ("empty",):
+                return l_
+            return (e[0], l_, r_)
+        return e
+
+    def tc_run(name, argv, state):
+        f = tcx.own_method(name)
+        if not isinstance(f, FUNC_TYPES):
+            raise AnalysisError(f"anchor vanished: TagContext.{name}")
+        dom = effects.EffectDomain(classes, attrs={"self": ("self",)})
+        return f, effects.run(ctx, dom, f, tcx, argv, state=State(state), depth=4)
+
+    def fresh_set(v):
+        return isinstance(v, tuple) and v[:1] == ("set",)
+
+    init, res = tc_run("__init__", {"parent": PARENT}, [])
+    normal = [r for r in res if r.kind == "val"]
+    ok = bool(normal) and all(fresh_set(r.state.get("self._tags", None)) for r in normal)
+    ctx.check("R-COPY-NOT-ALIAS", "TagContext.__init__ starts from a fresh set", init, ok, "a new context shares its tag set with another object", examined=len(res),
+              construct=f"{TAGS_MOD}:TagContext.__init__::fresh")
+    got = {repr(canon(r.state.get("self._tags", None))) for r in normal}
+    ctx.check("R-COPY-NOT-ALIAS", "TagContext.__init__ copies the parent's current tags", init, got == {repr(PTAGS)},
+              f"a child context starts with {sorted(got)} instead of a copy of parent.get_current_tags() (tags current before the test would be invisible inside it)",
+              examined=len(res), construct=f"{TAGS_MOD}:TagContext.__init__::copy-parent")
+    ok = bool(normal) and all(r.state.get("self.parent", None) == PARENT for r in normal)
+    _, res0 = tc_run("__init__", {"parent": NONE}, [])
+    normal0 = [r for r in res0 if r.kind == "val"]
+    ok0 = bool(normal0) and all(r.state.get("self.parent", None) == NONE and fresh_set(r.state.get("self._tags", None)) and canon(r.state.get("self._tags")) == ("empty",) for r in normal0)
+    ctx.check("R-COPY-NOT-ALIAS", "TagContext remembers its parent; a root context starts empty", init, ok and ok0,
+              "self.parent is not the parent context, or a context without parent does not start with a fresh empty set", examined=len(res) + len(res0),
+              construct=f"{TAGS_MOD}:TagContext.__init__::parent")
+    g, res = tc_run("get_current_tags", {}, [("self._tags", ("set", OWN))])
+    normal = [r for r in res if r.kind == "val"]
+    ok = bool(normal) and all(fresh_set(r.value) and r.value != ("set", OWN) and canon(r.value) == OWN and r.state.get("self._tags") == ("set", OWN) for r in normal)
+    ctx.check("R-COPY-NOT-ALIAS", "get_current_tags returns a fresh set with the context's tags", g, ok,
+              "get_current_tags hands out the context's own set (callers could change the context's tags) or not the current tags", examined=len(res),
+              construct=f"{TAGS_MOD}:TagContext.get_current_tags::fresh")
+    ch_, res = tc_run("change_tags", {"new_tags": NEWT, "gone_tags": GONET}, [("self._tags", ("set", OWN))])
+    normal = [r for r in res if r.kind == "val"]
+    want = ("minus", ("union", OWN, NEWT), GONET)
+    got = {repr(canon(r.state.get("self._tags", None))) for r in normal}
+    rets = {repr(canon(r.value)) for r in normal}
+    ok = bool(normal) and got == {repr(want)} and rets == {repr(want)} and all(fresh_set(r.value) and r.value != r.state.get("self._tags") for r in normal)
+    ctx.check("R-COPY-NOT-ALIAS", "change_tags adds the new tags, then removes the gone tags, on its own set, and returns a copy of the result", ch_, ok,
+              f"after change_tags the context holds {sorted(got)} and returns {sorted(rets)}; expected (own | new_tags) - gone_tags, returned as a fresh set", examined=len(res),
+              construct=f"{TAGS_MOD}:TagContext.change_tags::ops")
 
     # ------------------------------------------------------------------ TFR routing
-    tf = own_method(ctx, REAL, "ThreadsafeForwardingResult", "tags")
-    ok = False
-    for n in walk_shallow(tf, include_self=False):
-        if isinstance(n, ast.If) and norm(n.test) == "self._test_start is not None":
-            t_ok = any(isinstance(s, ast.Assign) and dotted(s.targets[0]) == "self._test_tags" and isinstance(s.value, ast.Call) and dotted(s.value.func) == "_merge_tags" and dotted(s.value.args[0]) == "self._test_tags" for s in n.body)
-            g_ok = any(isinstance(s, ast.Assign) and dotted(s.targets[0]) == "self._global_tags" and isinstance(s.value, ast.Call) and dotted(s.value.func) == "_merge_tags" and dotted(s.value.args[0]) == "self._global_tags" for s in n.orelse)
-            ok = t_ok and g_ok
-    ctx.check("R-TFR-TAGS", "tags() routes to the per-test buffer iff a test is open, else to the run-level buffer", tf, ok,
-              "ThreadsafeForwardingResult.tags no longer routes by `self._test_start is not None` through _merge_tags", construct=f"{REAL}:ThreadsafeForwardingResult.tags::route")
-    ok = any(isinstance(c, ast.Call) and dotted(c.func) == "super().tags" for c in walk_shallow(tf, include_self=False))
-    ctx.check("R-TFR-TAGS", "tags() also updates the forwarder's own context", tf, ok, "current_tags of the forwarder would not reflect the change", construct=f"{REAL}:ThreadsafeForwardingResult.tags::own-context")
-
-    helper = own_method(ctx, REAL, "ThreadsafeForwardingResult", "_add_result_with_semaphore")
-    gh = cfg_of(ctx, helper)
-    from ..cfg import live_nodes as _live
-    from .common import nodes_calling as _nc
-    lvh = _live(gh)
-
-    def tags_of(buf):
-        return _nc(gh, lambda c: dotted(c.func) == "self.result.tags" and len(c.args) == 1 and isinstance(c.args[0], ast.Starred) and dotted(c.args[0].value) == buf, lvh)
-
-    gg, gt = tags_of("self._global_tags"), tags_of("self._test_tags")
-    others = [n for n in _nc(gh, lambda c: dotted(c.func) == "self.result.tags", lvh) if n not in gg + gt]
-    ok = len(gg) == 1 and len(gt) == 1 and not others and not (set(gh.reach(gh.after(gt[0]))) & set(gg))
-    ctx.check("R-TFR-TAGS", "the block forwards the run-level buffer, then the test's own buffer, unmerged (test-local changes win)", helper, ok,
-              "the forwarded tags are not tags(*self._global_tags) followed by tags(*self._test_tags): a test-local change can be overridden by a run-level one, "
-              "so the target sees tags that differ from the reporter's current_tags at the outcome", construct=f"{REAL}:ThreadsafeForwardingResult._add_result_with_semaphore::tags-order")
+    # Decided on abstract runs of the forwarder (rules/tfrmodel.py): which buffer a tags() call changes, what the
+    # per-test block replays -- whatever helpers, loops or inverted tests the code uses.
+    from . import tfrmodel as tm
+    tf, problems, n = tm.tag_routing_problems(ctx)
+    ctx.check("R-TFR-TAGS", "tags() records the change in the per-test buffer iff a test is open, else in the run-level buffer, and in the forwarder's own context", tf,
+              not problems, "; ".join(problems), examined=n, construct=f"{REAL}:ThreadsafeForwardingResult.tags::route")
+    helper, problems, n = tm.tag_replay_problems(ctx)
+    ctx.check("R-TFR-TAGS", "the block replays the run-level buffer, then the test's own buffer, unmerged (test-local changes win)", helper, not problems,
+              "; ".join(problems) + ": the target sees tags that differ from the reporter's current_tags at the outcome", examined=n,
+              construct=f"{REAL}:ThreadsafeForwardingResult._add_result_with_semaphore::tags-order")
 
     # ------------------------------------------------------------------ observed tags
     conv = own_method(ctx, REAL, "ExtendedToStreamDecorator", "_convert")
-    finals = [c for c in walk_shallow(conv, include_self=False) if isinstance(c, ast.Call) and dotted(c.func) == "self.status" and any(k.arg == "test_status" for k in c.keywords)]
-    ok = len(finals) == 1 and any(k.arg == "test_tags" and dotted(k.value) == "self.current_tags" for k in finals[0].keywords)
-    ctx.check("R-OBSERVED-TAGS", "final status event carries the tags current at the outcome", conv, ok,
-              "the final status event does not pass test_tags=self.current_tags", construct=f"{REAL}:ExtendedToStreamDecorator._convert::final-tags")
+    etsd = classes.get(REAL, "ExtendedToStreamDecorator")
+    CUR = ("sym", "current-tags")
+    dom = effects.EffectDomain(classes, attrs={"self": ("self",), "self.current_tags": CUR, "self._started": TRUE}, track=lambda d: d == "self.status", results={"self._now": [("sym", "now")]})
+    res = effects.run(ctx, dom, conv, etsd, {"test": ("wobj", "test"), "err": NONE, "details": NONE, "status": ("const", "success"), "reason": NONE}, state=State(), depth=3)
+    problems = set()
+    for r in res:
+        if r.kind != "val":
+            continue
+        finals = [c_ for c_ in effects.calls(r, "self.status") if any(k == "test_status" and v != NONE for k, v in c_[2])]
+        if len(finals) != 1:
+            problems.add(f"{len(finals)} final status events are sent for one outcome")
+        elif dict(finals[0][2]).get("test_tags") != CUR:
+            problems.add(f"the final status event carries test_tags={dict(finals[0][2]).get('test_tags', 'nothing')!r} instead of self.current_tags")
+    ctx.check("R-OBSERVED-TAGS", "final status event carries the tags current at the outcome", conv, bool(res) and not problems,
+              "; ".join(sorted(problems)) or "no path explored", examined=len(res), construct=f"{REAL}:ExtendedToStreamDecorator._convert::final-tags")
     uc = own_method(ctx, REAL, "_StreamToTestRecord", "_update_case")
-    ok = any(isinstance(n, ast.If) and norm(n.test) == "test_tags is not None" and any(isinstance(s, ast.Assign) and "set('tags', test_tags)" in norm(s.value).replace('"', "'") for s in n.body) and not n.orelse
-             for n in walk_shallow(uc, include_self=False))
-    ctx.check("R-OBSERVED-TAGS", "a record's tags are overwritten only when the event carries tags", uc, ok,
-              "_update_case no longer keeps the latest tags seen (an event without tags would erase them, or tags would never be taken)", construct=f"{REAL}:_StreamToTestRecord._update_case::latest-tags")
-    ph = own_method(ctx, TESTCASE, "PlaceHolder", "run")
-    g = cfg_of(ctx, ph)
-    from ..cfg import live_nodes, node_calls
-    lv = live_nodes(g)
-    seq = []
-    for n in sorted((n for n in g.nodes if n.id in lv and n.kind == "stmt"), key=lambda n: n.line):
-        for c in node_calls(n):
-            d = dotted(c.func)
-            if d in ("result.tags", "result.startTest", "result.stopTest"):
-                seq.append((d.split(".")[1], [norm(a) for a in c.args]))
-    want = [("tags", ["self._tags", "set()"]), ("startTest", ["self"]), ("stopTest", ["self"]), ("tags", ["set()", "self._tags"])]
-    ctx.check("R-OBSERVED-TAGS", "PlaceHolder.run: add tags, startTest, stopTest, remove the same tags", ph, seq == want,
-              f"PlaceHolder.run calls {seq}", construct=f"{TESTCASE}:PlaceHolder.run::tag-symmetry")
+    from . import recordmodel as rm
+    T1, T3 = ("tags", "T1"), ("tags", "T3")
+    problems = set()
+    n = 0
+    for name, hist, want in [
+        ("tags on an interim event, none on the final one", [rm.event(status=("const", "inprogress"), tags=T1), rm.event(status=("const", "success"))], T1),
+        ("tags on both events", [rm.event(status=("const", "inprogress"), tags=T1), rm.event(status=("const", "success"), tags=T3)], T3),
+        ("tags on the final event only", [rm.event(status=("const", "inprogress")), rm.event(status=("const", "success"), tags=T3)], T3),
+    ]:
+        states, _ = rm.run_history(ctx, hist)
+        n += len(states)
+        if not states:
+            problems.add(f"{name}: no path returns normally")
+        for s_ in states:
+            got = [r_[3] for r_ in s_.get("ev.reports", ())]
+            if got != [want]:
+                problems.add(f"{name}: the record is reported with tags {got}, expected [{want}]")
+    ctx.check("R-OBSERVED-TAGS", "a record's tags are the latest tags an event carried", uc, not problems,
+              "; ".join(sorted(problems)) + " (an event without tags would erase them, or tags would never be taken)", examined=n, construct=f"{REAL}:_StreamToTestRecord._update_case::latest-tags")
+    from .common import EMPTY_SET, PH_TAGS, placeholder_runs
+    ph, logs, n = placeholder_runs(ctx)
+    problems = set()
+    if not logs:
+        problems.add("no path of PlaceHolder.run returns normally")
+    for log in logs:
+        names = [c_[0] for c_ in log]
+        tg = [(i, c_[1]) for i, c_ in enumerate(log) if c_[0] == "tags"]
+        if "startTest" not in names or "stopTest" not in names:
+            problems.add(f"the placeholder does not bracket its outcome with startTest / stopTest (calls {names})")
+            continue
+        before = [a_ for i, a_ in tg if i < names.index("startTest")]
+        inside = [a_ for i, a_ in tg if names.index("startTest") < i < names.index("stopTest")]
+        after = [a_ for i, a_ in tg if i > names.index("stopTest")]
+        if before != [(PH_TAGS, EMPTY_SET)]:
+            problems.add(f"before startTest the placeholder sends tags{before}: expected exactly tags(its tags, set()) so that the test sees them from the start")
+        if inside:
+            problems.add(f"tags are changed inside the test bracket ({inside})")
+        if after != [(EMPTY_SET, PH_TAGS)]:
+            problems.add(f"after stopTest the placeholder sends tags{after}: expected exactly tags(set(), its tags) so that its tags do not leak into later tests")
+    ctx.check("R-OBSERVED-TAGS", "PlaceHolder.run: add tags, startTest, stopTest, remove the same tags", ph, not problems,
+              "; ".join(sorted(problems)), examined=n, construct=f"{TESTCASE}:PlaceHolder.run::tag-symmetry")
     ctx.assume("TagContext is only reached through self._tags of the owning result (no other references are kept)")
